@@ -102,8 +102,11 @@ def _child(conn, eng_name: str, seed: int, tier: str, indices, timeout: float) -
         faulthandler.dump_traceback_later(timeout, exit=True)
         eng = importlib.import_module(eng_name)
         agg: dict = {}
-        if hasattr(eng, "run_chunk"):
-            agg = eng.run_chunk(seed, list(indices), tier)
+        if getattr(eng, "ISOLATE_RUNS", False):
+            # every run in its own pristine fork: what a run observes depends on its own workload only, never on
+            # process-global state of the code under test left behind by an earlier run of the same worker
+            for i in indices:
+                merge_run(agg, in_fork(eng.run_one, seed, i, tier, timeout=timeout))
         else:
             for i in indices:
                 merge_run(agg, eng.run_one(seed, i, tier))
@@ -166,6 +169,50 @@ def run_pool(eng_name: str, seed: int, tier: str, chunks, nproc: int, wall: floa
                 merged.harness_errors.append(f"worker for runs {ch[0]}..{ch[-1]} exceeded {chunk_timeout}s and was killed")
     return {"chunks_started": started, "chunks_finished": finished, "chunks_skipped_wall_budget": skipped,
             "pool_wall_s": round(time.monotonic() - t0, 2)}
+
+
+def in_fork(fn, *args, timeout: float = 600):
+    """Run fn(*args) in a pristine fork of this process; returns its result (or raises HarnessError)."""
+    ctx = mp.get_context("fork")
+    r, w = ctx.Pipe(duplex=False)
+
+    def child():
+        try:
+            # no faulthandler watchdog here: re-arming it in a child forked from a process whose watchdog thread is
+            # running deadlocks in CPython; the parent enforces the timeout (poll + kill) instead
+            w.send_bytes(pickle.dumps(("ok", fn(*args))))
+        except BaseException:
+            w.send_bytes(pickle.dumps(("err", traceback.format_exc())))
+        finally:
+            w.close()
+            os._exit(0)
+
+    p = ctx.Process(target=child)
+    p.start()
+    w.close()
+    try:
+        if not r.poll(timeout):
+            p.kill()
+            raise HarnessError(f"forked helper exceeded {timeout}s and was killed")
+        kind, payload = pickle.loads(r.recv_bytes())
+    except (EOFError, OSError):
+        kind, payload = "err", "forked helper died"
+    finally:
+        r.close()
+        p.join()
+    if kind != "ok":
+        raise HarnessError(str(payload)[-1500:])
+    return payload
+
+
+def _reproduces(eng_name: str, v: dict) -> bool:
+    eng = importlib.import_module(eng_name)
+    return any(x["class"] == v["class"] for x in eng.replay(v["workload"]))
+
+
+def _minimise(eng_name: str, v: dict) -> dict:
+    eng = importlib.import_module(eng_name)
+    return eng.minimise(v)
 
 
 # ----------------------------------------------------------------------------
@@ -327,9 +374,12 @@ def main(argv=None) -> None:
     try:
         eng = importlib.import_module(eng_name)
         if digests_for is not None:
+            if hasattr(eng, "preload"):
+                eng.preload()
             out = {}
             for i in reversed(digests_for):
-                out[i] = eng.run_one(seed, i, tier)["digest"]
+                out[i] = (in_fork(eng.run_one, seed, i, tier) if getattr(eng, "ISOLATE_RUNS", False)
+                          else eng.run_one(seed, i, tier))["digest"]
             print("DIGESTS " + json.dumps(out))
             sys.exit(0)
         if replay is not None:
@@ -371,6 +421,8 @@ def do_batch(eng, eng_name: str, prop: str, tier: str, seed: int) -> int:
     print(f"[{prop}] engine={eng_name} tier={tier} VERIF_SEED={seed} runs={runs} chunk={chunk} nproc={nproc} "
           f"repo={repo_root()}", flush=True)
     merged = Merged()
+    if hasattr(eng, "preload"):
+        eng.preload()          # import the code under test once, in the parent: forks start from "freshly imported"
     if hasattr(eng, "prepare"):
         eng.prepare(seed, tier)
     pool = run_pool(eng_name, seed, tier, chunks, nproc, cfg["wall"], cfg.get("chunk_timeout", 600), merged)
@@ -383,7 +435,16 @@ def do_batch(eng, eng_name: str, prop: str, tier: str, seed: int) -> int:
         extra.update(eng.finish(merged, seed, tier) or {})
         if merged.harness_errors:
             raise HarnessError("; ".join(str(x)[-1500:] for x in merged.harness_errors[:3]))
-    extra["determinism_selftest"] = determinism_selftest(eng, eng_name, prop, seed, tier, merged, cfg.get("selftest", 8), nproc)
+    try:
+        extra["determinism_selftest"] = determinism_selftest(eng, eng_name, prop, seed, tier, merged, cfg.get("selftest", 8), nproc)
+    except HarnessError as e:
+        if not merged.violations:
+            raise
+        # Violations were found AND re-execution disagrees: state of the code under test is leaking from one run
+        # into the next inside a worker process. Every reported violation carries its own explicit workload and is
+        # re-checked by the minimiser / replay, so report them rather than hiding them behind a harness error.
+        print(f"  warning: {e}")
+        extra["determinism_selftest"] = {"mismatch_while_violations_present": str(e)[:500]}
 
     # group violations
     groups = {}
@@ -405,11 +466,26 @@ def do_batch(eng, eng_name: str, prop: str, tier: str, seed: int) -> int:
         if reported >= 12:
             continue
         reported += 1
-        if hasattr(eng, "minimise"):
+        # prefer a witness that reproduces from its own explicit workload in a pristine process
+        chosen = None
+        for cand in vs[:5]:
             try:
-                v = eng.minimise(v)
-            except Exception:
-                print(f"  (minimiser failed, reporting unminimised: {traceback.format_exc(limit=2)})")
+                if in_fork(_reproduces, eng_name, cand, timeout=300):
+                    chosen = cand
+                    break
+            except HarnessError:
+                pass
+        if chosen is None:
+            print(f"  note: class={cls} was observed in {len(vs)} run(s) but none of the first {min(5, len(vs))} witnesses "
+                  f"reproduces from its own workload in a fresh process (it depends on what the worker process ran before); "
+                  f"the replay file carries the first witness unminimised")
+        else:
+            v = chosen
+            if hasattr(eng, "minimise"):
+                try:
+                    v = in_fork(_minimise, eng_name, v, timeout=900)
+                except HarnessError as e:
+                    print(f"  (minimiser failed, reporting unminimised: {str(e)[-300:]})")
         p = write_replay(prop, eng_name, seed, v)
         print(f"  violation class={cls} signature={sig} runs={len(vs)} first_run={v.get('run')} :: {v.get('message', '')[:400]}")
         print(f"VIOLATION property={prop} replay={p}")
